@@ -155,6 +155,14 @@ def surgery_harness(op, max_up=4):
         cur = forest.node("SymbolicExpression", "stack-top")
         top = forest.grow(cur)
         ctx.inputs["shape"] = list(forest.shape)
+        # the tree may have been evaluated before it is extended: every node then still carries the parent under which that
+        # evaluation reached it (= its tree parent at that time)
+        evaluated_before = bool(ctx.choice(2, "evaluated-before"))
+        ctx.inputs["evaluated_before"] = evaluated_before
+        if evaluated_before:
+            for n in forest.nodes:
+                pf = n.fields["_node_"].fields["parent_field"]
+                n.fields["_eval_parent_"] = pf.fields["data"] if pf is not None else None
         stack = PyList([cur])
         vm.loader.cls(SYM, "SymbolicExpression").class_attr_vals["_symbolic_expression_stack_"] = stack
         vm.loader.cls(SYM, "SymbolicExpression").class_attr_vals["_id_expression_map_"] = make_dict([])
@@ -193,6 +201,11 @@ def surgery_harness(op, max_up=4):
                    and target.fields["_node_"].fields["parent_field"] is new_root.fields["_node_"]
                    and cond.fields["_node_"].fields["parent_field"] is new_root.fields["_node_"])
             ctx.check(f"{prefix}::parent-pointers-follow-the-evaluation-tree", z3.BoolVal(okp), detail=shape)
+            # ... also as the NEXT construction step reads them (through the real _parent_ property), whatever an earlier
+            # evaluation left on the nodes
+            seen = (vm._getattr(target, "_parent_"), vm._getattr(new_root, "_parent_"))
+            ctx.check(f"{prefix}::the-next-step-reads-the-rebuilt-tree-not-an-earlier-evaluation", z3.BoolVal(seen[0] is new_root and seen[1] is slot_before[0]),
+                      detail=f"shape {shape}, evaluated before: {evaluated_before}: _parent_ of the re-parented node reads {seen[0]!r}, of the new selector {seen[1]!r}")
     return Harness(f"surgery-{op}", run, spec=Spec(), covers=["returned"], max_paths=60000)
 
 
